@@ -126,9 +126,9 @@ impl<'a> Iterator for IterBlocks<'a> {
 			// Avoid infinite loop by skipping at least the image base relocation header
 			let block_size = cmp::max(block_size, mem::size_of::<IMAGE_BASE_RELOCATION>() as u32);
 			// Ensure that the data pointer remains dword aligned $1
-			let block_size = block_size.align_to(4);
+			let block_size = (block_size as usize).align_to(4);
 			// Clamp the length to the data size
-			let block_size = cmp::min(block_size as usize, self.data.len());
+			let block_size = cmp::min(block_size, self.data.len());
 			self.data = &self.data[block_size..];
 			Some(block)
 		}
